@@ -17,12 +17,14 @@ Oracles (all written out here, nothing taken from biotite):
 Float policy: branch lengths are float32 inside ``TreeNode``.  Sums of E
 branches done in float32 (``distance_to``) differ from the float64 sum by at
 most ``E * 2**-23 * sum(|b|)`` (standard recursive-summation bound, doubled).
-``to_newick(round_distance=None)`` prints the repr of the float32 widened to
-double, which parses back to the same float32: exact equality is demanded.
-``round_distance=k`` may move each branch by 0.5 * 10**-k (+ one float32 ulp).
+``to_newick(round_distance=None)`` must print a text that identifies the float32
+(today: the repr of the float32 widened to double): equality is demanded at
+float32 level, for the text and after parsing.
+``round_distance=k`` may move each branch by 0.5 * 10**-k (+ one float32 ulp); the
+written value must be a multiple of 10**-k (the form of the text is free).
 UPGMA / NJ work in float32 on at most 12 taxa: 64 * eps32 * (largest matrix entry
-among the leaves of the node) for UPGMA heights, 1e-4 * max(D) for NJ path lengths
-(DESIGN C19).
+among the leaves of the node) for UPGMA heights, (64 + 4 n) * eps32 * max(D) for NJ path lengths
+(>= 30 x the measured worst error for n = 4..60; DESIGN C19 allowed 1e-4 * max(D)).
 """
 
 import itertools
@@ -37,7 +39,8 @@ from vlib import Enum, Outcome, Sub, findings
 PROPERTY = "C19"
 RULE = (
     "distance matrices n=2..12 (int / float / constant / ultrametric / additive, ties and zeros) for "
-    "upgma and neighbor_joining; weighted unrooted trees -> additive matrices for NJ recovery; random rooted "
+    "upgma and neighbor_joining; weighted unrooted trees (4..12 taxa, 1 in 12 with 13..32, thorough ..60) -> additive "
+    "matrices for NJ recovery; random rooted "
     "trees (1..5 children, depth <= 8, float32 branch lengths, permuted leaf indices, labels) for Newick / "
     "copy / as_binary / distance queries.  Non-trivial: UPGMA n >= 5 with a tie in some merge step; "
     "NJ n >= 5; trees with >= 3 leaves and a non-binary node"
@@ -265,7 +268,7 @@ def check_leaves(o, tree, n, clause):
 
 
 # --------------------------------------------------------------------------
-# independent strict Newick reader (used on what the writer emits)
+# independent Newick reader (used on what the writer emits)
 # --------------------------------------------------------------------------
 class NewickSyntax(Exception):
     pass
@@ -273,7 +276,9 @@ class NewickSyntax(Exception):
 
 def parse_newick(text):
     """-> nested ('leaf', name, dist_text|None) / ('node', [children], name, dist_text|None).
-    Strict: no whitespace, terminal ';' required, nothing after it."""
+    Whitespace anywhere in the text is dropped first (Newick allows it between tokens, biotite's reader
+    removes it, and the generated labels contain none); terminal ';' required, nothing after it."""
+    text = "".join(text.split())
     pos = 0
     stop = set("(),:;")
 
@@ -364,7 +369,8 @@ def insert_whitespace(newick, ws):
 # strategies: rooted trees
 # --------------------------------------------------------------------------
 SPECIAL_DIST = [0.0, 0.0, 1.0, 0.5, 2.0, 3.0, f32(0.1), f32(1e-7), f32(1e-30), f32(1e30), f32(123456.789), 16777216.0, f32(1e-5), f32(2.5e-4)]
-LABEL_ALPHABET = "abcxyzABC0123456789_-.+*/|#=%!?<>{}~^&@$äßλ日"
+# no '_' (a blank in unquoted standard Newick), no blanks, no Newick metacharacters, no quotes / brackets
+LABEL_ALPHABET = "abcxyzABC0123456789-.+*/|#=%!?<>{}~^&@$äßλ日"
 
 
 def branch_from_raw(r):
@@ -580,8 +586,10 @@ def st_weights(k, mode):
 
 
 @st.composite
-def st_additive_tree(draw, min_n, max_n):
+def st_additive_tree(draw, min_n, max_n, big_n=None, big_one_in=12):
     n = draw(st.integers(min_n, max_n))
+    if big_n is not None and draw(st.integers(0, big_one_in - 1)) == 0:
+        n = draw(st.integers(max_n + 1, big_n))
     attach = draw(st.lists(st.integers(0, 10**4), min_size=max(n - 2, 0), max_size=max(n - 2, 0)))
     mode = draw(st.sampled_from(["small_int", "int", "float", "float", "log", "mixed"]))
     scale = draw(st.sampled_from(SCALES))
@@ -604,7 +612,7 @@ def st_matrix_case(tier, min_n):
     @st.composite
     def gen(draw):
         n = draw(st.integers(min_n, 12))
-        kind = draw(st.sampled_from(["int", "int", "int", "float", "float", "logfloat", "logfloat", "const", "ultra", "ultra", "ultra", "additive", "additive", "additive"]))
+        kind = draw(st.sampled_from(["int", "int", "int", "float", "float", "logfloat", "logfloat", "const", "const", "ultra", "ultra", "ultra", "additive", "additive", "additive"]))
         scale = draw(st.sampled_from(SCALES))
         dtype = draw(st.sampled_from(["float64", "float32", "float64"]))
         if kind == "int":
@@ -632,7 +640,7 @@ def st_matrix_case(tier, min_n):
             d[np.triu_indices(n, 1)] = vals
             d = (d + d.T) * scale
         elif kind == "const":
-            c = draw(st.sampled_from([0.0, 1.0, 7.0, 0.1]))
+            c = draw(st.one_of(st.sampled_from([0.0, 1.0, 7.0, 0.1]), st.integers(0, 4000).map(lambda v: v / 8.0)))
             d = np.full((n, n), c * scale)
             np.fill_diagonal(d, 0.0)
         elif kind == "ultra":
@@ -660,7 +668,10 @@ def st_nj_any(tier):
 
 
 def st_nj_additive(tier):
-    return st_additive_tree(4, 12)
+    # mostly 4..12 taxa; some larger ones so that "any additive matrix" is not decided for n <= 12 only
+    if tier == "quick":
+        return st_additive_tree(4, 12, big_n=32, big_one_in=12)
+    return st_additive_tree(4, 12, big_n=60, big_one_in=6)
 
 
 # --------------------------------------------------------------------------
@@ -684,13 +695,21 @@ def _matrix(case):
     return _layout(d.astype(case["dtype"]), case.get("layout", "c"))
 
 
-def _cluster_twice(o, fn, dm):
-    """The caller's matrix is used for two calls: the tree that is examined is the one of the second call,
-    the oracle works on the values the matrix had before the first."""
+def _cluster_twice(o, fn, make):
+    """fn is called twice (small matrices), each time with a freshly built argument; the tree that is examined
+    is the one of the second call, so a result that depends on an earlier call (state kept between calls) shows
+    up under the clause of the oracle that notices it.  Whether fn changes its argument is decided separately
+    and under its own clause (beyond the statement: no docstring promises it, but silently overwriting the
+    caller's array is not a change a maintainer would accept) - it can no longer disturb the other oracles.
+    -> (tree, the argument of the examined call)"""
+    dm = make()
     if dm.shape[0] <= 8:
-        fn(dm)
-        o.label("matrix_object_used_twice")
-    return fn(dm)
+        fn(make())
+        o.label("called_twice")
+    before = np.array(dm, dtype=np.float64)
+    tree = fn(dm)
+    o.check_array_eq(np.array(dm, dtype=np.float64), before, "matrix_argument_unchanged", f"distance matrix after {getattr(fn, '__name__', 'clustering')}()")
+    return tree, dm
 
 
 class CNode:
@@ -748,9 +767,8 @@ def run_upgma(case):
 
     o = Outcome()
     n = case["n"]
-    dm = _matrix(case)
-    d = dm.astype(np.float64)
-    tree = _cluster_twice(o, upgma, dm)
+    tree, dm = _cluster_twice(o, upgma, lambda: _matrix(case))
+    d = np.array(_matrix(case), dtype=np.float64)  # the values that were passed, not what the call left behind
     o.label(f"kind={case['kind']}", f"dtype={case['dtype']}", "n>=5" if n >= 5 else "n<5", "layout=" + case.get("layout", "c"))
     if not check_leaves(o, tree, n, "every_index_exactly_one_leaf"):
         return o
@@ -844,13 +862,13 @@ def run_nj_additive(case):
 
     o = Outcome()
     n = case["n"]
-    d = additive_matrix(n, case["attach"], case["w"], case["perm"])
-    dm = _layout(d.astype(case["dtype"]), case.get("layout", "c"))
-    d = dm.astype(np.float64)
-    tree = _cluster_twice(o, neighbor_joining, dm)
+    d0 = additive_matrix(n, case["attach"], case["w"], case["perm"])
+    tree, dm = _cluster_twice(o, neighbor_joining, lambda: _layout(d0.astype(case["dtype"]), case.get("layout", "c")))
+    # the oracle works on the values that were passed (float32 input: the rounded ones), read before the call
+    d = _layout(d0.astype(case["dtype"]), "c").astype(np.float64)
     o.label("layout=" + case.get("layout", "c"))
     scale = float(d.max())
-    o.label(f"n={n}" if n < 6 else "n>=6", f"dtype={case['dtype']}")
+    o.label(f"n={n}" if n < 6 else "n=6..12" if n <= 12 else "n>12", f"dtype={case['dtype']}")
     nz = sum(1 for w in case["w"][: 2 * n - 3] if w == 0)
     if nz:
         o.label("zero_edge")
@@ -863,7 +881,8 @@ def run_nj_additive(case):
         return o
     root = CNode(tree.root, None)
     _check_nj_shape(o, root)
-    tol = 1e-4 * scale + TINY
+    # float32 arithmetic inside NJ: measured worst error 1.6 (n=4) .. 2.4 (n=12) .. 6 (n=60) eps32 * max(D)
+    tol = (64 + 4 * n) * EPS32 * scale + TINY
     paths = bio_leaf_paths(tree.root)
     worst = 0.0
     for i in range(n):
@@ -895,10 +914,7 @@ def run_nj_any(case):
 
     o = Outcome()
     n = case["n"]
-    dm = _matrix(case)
-    d_before = np.array(dm, dtype=np.float64)
-    tree = _cluster_twice(o, neighbor_joining, dm)
-    o.check_array_eq(np.array(dm, dtype=np.float64), d_before, "matrix_argument_unchanged", "distance matrix after neighbor_joining()")
+    tree, dm = _cluster_twice(o, neighbor_joining, lambda: _matrix(case))
     o.label(f"kind={case['kind']}", f"dtype={case['dtype']}", "layout=" + case.get("layout", "c"))
     if not check_leaves(o, tree, n, "every_index_exactly_one_leaf"):
         return o
@@ -908,8 +924,44 @@ def run_nj_any(case):
     o.check(all(math.isfinite(b) for b in branches), "nj_finite_branches", lambda: f"branches {branches}")
     if any(b < 0 for b in branches):
         o.label("negative_branch")
+    if all(math.isfinite(b) for b in branches):
+        _returned_tree_survives(o, tree, n)
     o.mark_nontrivial(n >= 5)
     return o
+
+
+def _returned_tree_survives(o, tree, n):
+    """A tree that biotite built itself (here: with the three-way NJ root) through Newick, copy and as_binary;
+    the reference is the tree as read through the public attributes before."""
+    from biotite.sequence.phylo import Tree, as_binary
+
+    topo_d = bio_topo(tree.root, True)
+    paths = bio_leaf_paths(tree.root)
+    s = tree.to_newick()
+    t2 = Tree.from_newick(s)
+    if check_leaves(o, t2, n, "newick_roundtrip_keeps_topology_and_distances"):
+        o.check(
+            bio_topo(t2.root, True) == topo_d,
+            "newick_roundtrip_keeps_topology_and_distances",
+            lambda: f"tree returned by neighbor_joining: {s!r} read back as {t2.to_newick()!r}",
+        )
+    cp = tree.copy()
+    if check_leaves(o, cp, n, "copy_keeps_topology_and_distances"):
+        o.check(bio_topo(cp.root, True) == topo_d, "copy_keeps_topology_and_distances", lambda: f"copy of {s!r} is {cp.to_newick()!r}")
+    bt = as_binary(tree)
+    if check_leaves(o, bt, n, "as_binary_keeps_leaves"):
+        o.check(all(x.is_leaf() or len(x.children) == 2 for x in bio_nodes(bt.root)), "as_binary_is_binary", lambda: f"{bt.to_newick(include_distance=False)}")
+        bpaths = bio_leaf_paths(bt.root)
+        for i, j in _leaf_pairs(n, cap=20):
+            want, edges = bio_pair_distance(paths, i, j)
+            got, _ = bio_pair_distance(bpaths, i, j)
+            abs_sum = math.fsum(abs(d) for _, d in paths[i]) + math.fsum(abs(d) for _, d in paths[j])
+            tol = sum_tol(edges, abs_sum, 2)
+            o.check(
+                abs(got - want) <= tol,
+                "as_binary_keeps_leaf_distances",
+                lambda: f"path {i}-{j}: {got!r} in the binary form of {s!r}, {want!r} before (tol {tol:g})",
+            )
 
 
 # --------------------------------------------------------------------------
@@ -965,6 +1017,8 @@ def run_tree_newick(case):
     n, nonbinary = _tree_labels(o, mnodes)
     leaf_of = {m.index: m for m in mnodes if m.index is not None}
     labels = case["labels"]
+    if any(_looks_like_number(x) for x in labels[:n]):
+        o.label("label_looks_like_number")
     ws = case["ws"]
     topo = model_topo(mroot, False)
     topo_d = model_topo(mroot, True)
@@ -1003,25 +1057,47 @@ def run_tree_newick(case):
             return
         try:
             if mode == "exact":
-                got = parsed_topo(p, name_to_index, float)
+                # The branch lengths are float32 values: the text must identify the float32 (which text is
+                # chosen for it - repr of the widened double, the shortest text - is the writer's business).
+                got = parsed_topo(p, name_to_index, _text_to_f32)
                 o.check(got == topo_d, "newick_writer_emits_the_tree", lambda: f"{what}: distances in {text!r} differ from the tree's")
+                texts = [t for _, _, t in _parsed_branches(p, name_to_index)]
+                if any("e" in t.lower() for t in texts):
+                    o.label("exponent_form_in_text")
+                if any(float(t) != _text_to_f32(t) for t in texts):
+                    o.label("written=shortest_float32_text")
             else:
                 k = mode
-                # compare branch by branch: multiset of (leaf set below, written value)
+                # compare branch by branch: multiset of (leaf set below, written value).  "Rounded to the given
+                # number of digits" is decided on the value of the text, not on its form ('3', '3.0', '1e-07'
+                # are all fine): the value is within half a unit of the k-th digit (+ a float32 ulp) of the
+                # branch, and it is a multiple of 10**-k - as a double, or at least as a float32.
                 written = _parsed_branches(p, name_to_index)
                 wanted = sorted((sorted(m.leafset), m.depth, m.dist) for m in mnodes if m.parent is not None)
                 written.sort()
                 ok = len(written) == len(wanted)
+                why = "other branches"
+                level = set()
                 if ok:
                     for (ls1, dep1, txt), (ls2, dep2, dv) in zip(written, wanted):
-                        if ls1 != ls2 or dep1 != dep2 or abs(float(txt) - dv) > 0.5 * 10.0**-k + 2.0**-50 * abs(dv) + TINY:
+                        v = float(txt)
+                        if ls1 != ls2 or dep1 != dep2:
                             ok = False
                             break
-                        frac = txt.split(".")[1] if "." in txt else ""
-                        if len(frac) > k or "e" in txt.lower():
-                            ok = False
+                        if not abs(v - dv) <= 0.5 * 10.0**-k + EPS32 * (abs(dv) + 10.0**-k) + TINY:
+                            ok, why = False, f"{txt!r} is not within half a unit of digit {k} of {dv!r}"
                             break
-                o.check(ok, "newick_writer_emits_the_tree", lambda: f"{what}: round_distance={k}: {text!r} vs branches {wanted}")
+                        x = v * 10.0**k
+                        if abs(x - round(x)) <= 1e-9 * max(1.0, abs(x)):
+                            level.add("decimal")
+                        elif _text_to_f32(txt) == f32(round(v, k)):
+                            level.add("float32")
+                        else:
+                            ok, why = False, f"{txt!r} is not a number with {k} digits after the point"
+                            break
+                o.check(ok, "newick_writer_emits_the_tree", lambda: f"{what}: round_distance={k}: {why}: {text!r} vs branches {wanted}")
+                if ok and "float32" in level:
+                    o.label("rounded_text=float32_level_only")
         except ValueError as e:
             o.fail("newick_writer_emits_the_tree", f"{what}: unreadable distance: {e} in {text!r}")
 
@@ -1039,7 +1115,7 @@ def run_tree_newick(case):
     if check_reparsed(t2, exact, "from_newick(to_newick())", "newick_roundtrip_keeps_topology_and_distances"):
         _check_pair_distances(o, t2, leaf_of, pairs, "newick_roundtrip_keeps_topology_and_distances", "from_newick(to_newick())")
         o.check(t2 == tree, "roundtrip_tree_equal", lambda: f"from_newick(to_newick()) != tree for {s!r}")
-        o.check(hash(t2) == hash(tree), "roundtrip_tree_equal", "hash differs after the exact round trip")
+        o.check(_same_hash(o, t2, tree), "roundtrip_tree_equal", "hash differs after the exact round trip")
     # without the terminal semicolon (documented as accepted)
     t2 = Tree.from_newick(s[:-1])
     check_reparsed(t2, exact, "from_newick(no semicolon)", "newick_roundtrip_keeps_topology_and_distances")
@@ -1096,9 +1172,46 @@ def run_tree_newick(case):
     cp = tree.copy()
     if check_reparsed(cp, exact, "copy()", "copy_keeps_topology_and_distances"):
         _check_pair_distances(o, cp, leaf_of, pairs, "copy_keeps_topology_and_distances", "copy()")
-        o.check(cp == tree and hash(cp) == hash(tree), "copy_equal", "copy() != tree or hash differs")
+        o.check(cp == tree and _same_hash(o, cp, tree), "copy_equal", "copy() != tree or hash differs")
         orig_ids = {id(x) for x in bnodes}
         o.check(all(id(x) not in orig_ids for x in bio_nodes(cp.root)), "copy_is_deep", "copy() shares a TreeNode with the original")
+    # == is not trivially true: the same tree with two leaf indices exchanged (and a really different topology)
+    if n >= 2:
+        i, j = case["pairs"][0][0] % n, case["pairs"][0][1] % n
+        other_spec = _swap_leaves(spec, i, j)
+        oroot, _ = build_model(other_spec)
+        if model_topo(oroot, True) != topo_d:
+            o.label("unequal_tree_compared")
+            other = Tree(build_biotite(other_spec)[0])
+            o.check(not (other == tree) and other != tree, "different_trees_are_unequal", lambda: f"leaves {i} and {j} exchanged, but the trees compare equal")
+
+    # --- 5b. one subtree on its own: TreeNode.to_newick / from_newick / copy (documented: no semicolon,
+    # (node, distance) is returned, a copy has neither parent nor distance)
+    inner_pos = [m.pos for m in mnodes if m.index is None]
+    if inner_pos:
+        msub = mnodes[inner_pos[case["pairs"][1][0] % len(inner_pos)]]
+        bsub = bnodes[msub.pos]
+        o.label("subtree_is_root" if msub.parent is None else "subtree_below_root")
+        sub_d = model_topo(msub, True)
+        ssub = bsub.to_newick()
+        o.check(not ssub.rstrip().endswith(";"), "node_newick_roundtrip", lambda: f"TreeNode.to_newick() ends with a semicolon: {ssub!r}")
+        res = TreeNode.from_newick(ssub.rstrip().rstrip(";"))
+        if o.check(
+            isinstance(res, tuple) and len(res) == 2 and isinstance(res[0], TreeNode),
+            "node_newick_roundtrip",
+            lambda: f"TreeNode.from_newick returned {res!r:.200} instead of (node, distance)",
+        ):
+            node2, dist2 = res
+            o.check(bio_topo(node2, True) == sub_d, "node_newick_roundtrip", lambda: f"subtree {ssub!r} was read as {_fmt(bio_topo(node2, True))}")
+            want_d = 0.0 if msub.parent is None else msub.dist
+            o.check(f32(dist2) == want_d, "node_newick_roundtrip", lambda: f"distance returned for {ssub!r}: {dist2!r}, want {want_d!r}")
+            o.check(node2.parent is None and node2.distance is None, "node_newick_roundtrip", "the node read from a string has a parent / a distance")
+        csub = bsub.copy()
+        if o.check(isinstance(csub, TreeNode), "node_copy_is_detached_subtree", lambda: f"TreeNode.copy() returned a {type(csub).__name__}"):
+            o.check(bio_topo(csub, True) == sub_d, "node_copy_is_detached_subtree", lambda: f"copy of the node over {sorted(msub.leafset)}: {_fmt(bio_topo(csub, True))}")
+            o.check(csub.parent is None and csub.distance is None, "node_copy_is_detached_subtree", "the copy of a node has a parent / a distance")
+            orig_ids = {id(x) for x in bnodes}
+            o.check(all(id(x) not in orig_ids for x in bio_nodes(csub)), "node_copy_is_detached_subtree", "TreeNode.copy() shares a node with the original")
     o.check(bio_topo(tree.root, True) == topo_d, "operations_do_not_change_the_tree", "tree changed by to_newick / copy")
 
     # --- 6. binary form
@@ -1151,6 +1264,36 @@ def run_tree_newick(case):
     return o
 
 
+def _looks_like_number(txt):
+    try:
+        float(txt)
+    except ValueError:
+        return False
+    return True
+
+
+def _same_hash(o, a, b):
+    """equal objects have equal hashes - if the class is hashable at all (nothing says it has to be)"""
+    try:
+        return hash(a) == hash(b)
+    except TypeError:
+        o.label("tree_unhashable")
+        return True
+
+
+def _swap_leaves(spec, i, j):
+    """the spec with the reference indices i and j exchanged"""
+    if isinstance(spec, int):
+        return j if spec == i else i if spec == j else spec
+    return [[_swap_leaves(cs, i, j), d] for cs, d in spec]
+
+
+def _text_to_f32(t):
+    """the float32 a distance text stands for (widened to double again)"""
+    with np.errstate(all="ignore"):
+        return f32(float(t))
+
+
 def _parsed_branches(p, name_to_index):
     """[(sorted leaf set below, depth, distance text)] for every non-root node of a parse result"""
     out = []
@@ -1185,7 +1328,10 @@ def run_tree_queries(case):
     leaf_of = {m.index: m for m in mnodes if m.index is not None}
     if not check_leaves(o, tree, n, "tree_leaves_indexed_by_reference_index"):
         return o
-    o.check(tree.root is broot, "tree_leaves_indexed_by_reference_index", "tree.root is not the given node")
+    # "the tree wraps a root TreeNode, accessible via root": the node that was given, or at least the same tree
+    o.label("root_is_given_node" if tree.root is broot else "root_is_other_object")
+    if not o.check(bio_topo(tree.root, True) == model_topo(mroot, True), "tree_leaves_indexed_by_reference_index", "tree.root is not the tree that was given"):
+        return o
     pos_of = {id(b): k for k, b in enumerate(bnodes)}
 
     def check_pair(ma, mb, what, via_tree):
@@ -1243,6 +1389,11 @@ def run_tree_queries(case):
 
 # --------------------------------------------------------------------------
 # documented rejections of invalid matrices (finite list)
+#
+# The docstrings of upgma / neighbor_joining promise ValueError for exactly two things: a matrix that is not
+# symmetric, an entry below 0.  NaN, inf, a non-square array and fewer than 4 taxa for NJ are outside the
+# property's quantifier and in no docstring: there the only demand is "no silent nonsense" - an exception of any
+# type, or a Tree over exactly the given taxa (e.g. the star tree for 3 taxa).
 # --------------------------------------------------------------------------
 def invalid_cases(tier):
     for n in (2, 3, 4, 5, 7):
@@ -1257,7 +1408,7 @@ def invalid_cases(tier):
 
 
 def run_invalid(case):
-    from biotite.sequence.phylo import neighbor_joining, upgma
+    from biotite.sequence.phylo import Tree, neighbor_joining, upgma
 
     o = Outcome()
     d = np.array(case["base"], dtype=np.float64)
@@ -1277,8 +1428,83 @@ def run_invalid(case):
         d = d[:, :-1]
     elif kind == "nj_too_small":
         funcs = funcs[1:]
+    n = case["n"]
     for name, f in funcs:
-        o.expect_raises(ValueError, lambda: f(d), "invalid_matrix_rejected", f"{name}({kind} matrix, n={case['n']})")
+        what = f"{name}({kind} matrix, n={n})"
+        documented = kind in ("asymmetric", "negative") and not (name == "neighbor_joining" and n < 4)
+        if documented:
+            o.expect_raises(ValueError, lambda: f(d), "invalid_matrix_rejected", what)
+            continue
+        try:
+            res = f(d)
+        except Exception as e:  # noqa: BLE001 - no type is promised for these inputs
+            o.label(f"{kind}:{name}:refused", "refused_with_" + type(e).__name__)
+            continue
+        o.label(f"{kind}:{name}:returned_a_value")
+        if kind == "not_square":
+            o.check(isinstance(res, Tree), "undocumented_input_gives_error_or_tree", lambda: f"{what} returned {res!r:.200}")
+        else:
+            check_leaves(o, res, n, "undocumented_input_gives_error_or_tree")
+    o.mark_nontrivial(True)
+    return o
+
+
+# --------------------------------------------------------------------------
+# construction checks of TreeNode (finite list of documented refusals)
+# --------------------------------------------------------------------------
+CONSTRUCTION_KINDS = [
+    # (kind, exception demanded): TreeError only where a docstring names it (as_root), else "an error"
+    ("root_as_child", "TreeError"),  # as_root(): "When a root node is used as child ... a TreeError is raised"
+    ("tree_root_as_child", "TreeError"),  # Tree(): "The constructor calls the node's as_root() method"
+    ("child_has_parent", "any"),  # "Only the parent can be set once, when the parent node is created"
+    ("same_child_twice", "any"),  # the second use would set the parent a second time
+    ("negative_index", "any"),  # index: "Must be a positive integer"
+    ("index_and_children", "any"),  # "cannot be used in combination"
+    ("children_without_distances", "any"),  # distances: "Must be set if children is set"
+    ("nothing_given", "any"),  # neither a leaf nor an intermediate node
+    ("root_with_parent", "any"),  # as_root() of a node that is a child: a root is "a node without a parent node"
+]
+
+
+def construction_cases(tier):
+    for kind, exc in CONSTRUCTION_KINDS:
+        for arity in (1, 2, 3):
+            yield {"kind": kind, "exc": exc, "arity": arity}
+
+
+def run_construction(case):
+    from biotite.sequence.phylo import Tree, TreeError, TreeNode
+
+    o = Outcome()
+    kind, arity = case["kind"], case["arity"]
+    o.label(kind)
+    leaves = [TreeNode(index=i) for i in range(arity)]
+    dists = [1.0] * arity
+    if kind == "root_as_child":
+        inner = TreeNode(leaves, dists)
+        inner.as_root()
+        call = lambda: TreeNode([inner], [1.0])  # noqa: E731
+    elif kind == "tree_root_as_child":
+        tree = Tree(TreeNode(leaves, dists))
+        call = lambda: TreeNode([tree.root], [1.0])  # noqa: E731
+    elif kind == "child_has_parent":
+        TreeNode(leaves, dists)
+        call = lambda: TreeNode(leaves[:1], [2.0])  # noqa: E731
+    elif kind == "same_child_twice":
+        call = lambda: TreeNode([leaves[0]] * (arity + 1), [1.0] * (arity + 1))  # noqa: E731
+    elif kind == "negative_index":
+        call = lambda: TreeNode(index=-arity)  # noqa: E731
+    elif kind == "index_and_children":
+        call = lambda: TreeNode(leaves, dists, index=arity)  # noqa: E731
+    elif kind == "children_without_distances":
+        call = lambda: TreeNode(leaves)  # noqa: E731
+    elif kind == "nothing_given":
+        call = lambda: TreeNode()  # noqa: E731
+    else:
+        TreeNode(leaves, dists)
+        call = lambda: leaves[arity - 1].as_root()  # noqa: E731
+    exc = TreeError if case["exc"] == "TreeError" else Exception
+    o.expect_raises(exc, call, "invalid_construction_refused", f"{kind} (arity {arity})")
     o.mark_nontrivial(True)
     return o
 
@@ -1364,7 +1590,8 @@ SUBS = [
         thorough=60000,
         rule="n >= 5 and some merge step has a tie (two pairs at the minimal mean distance)",
         clauses="every index one leaf; binary; ultrametric (equal leaf depths, no negative branch); "
-        "height = half average linkage recomputed from the input; joined clusters were the closest",
+        "height = half average linkage recomputed from the input; joined clusters were the closest; beyond the statement: "
+        "the argument is not modified",
     ),
     Sub(
         "nj_additive",
@@ -1373,7 +1600,8 @@ SUBS = [
         quick=1500,
         thorough=60000,
         rule="n >= 5, not all distances zero",
-        clauses="every index one leaf; three-way root, binary elsewhere; every d(i,j) of an additive matrix is a path length of the tree",
+        clauses="every index one leaf; three-way root, binary elsewhere; every d(i,j) of an additive matrix is a path length of the tree "
+        "(tolerance (64 + 4 n) eps32 max(D)); beyond the statement: the argument is not modified",
     ),
     Sub(
         "nj_any",
@@ -1382,7 +1610,8 @@ SUBS = [
         quick=600,
         thorough=25000,
         rule="n >= 5",
-        clauses="every index one leaf; documented shape; finite branches - on arbitrary symmetric non-negative matrices",
+        clauses="every index one leaf; documented shape; finite branches - on arbitrary symmetric non-negative matrices; the returned "
+        "tree survives to_newick/from_newick, copy and as_binary; beyond the statement: the argument is not modified",
     ),
     Sub(
         "tree_newick",
@@ -1392,7 +1621,8 @@ SUBS = [
         thorough=50000,
         rule=">= 3 leaves and a node with 1 or >= 3 children",
         clauses="Newick writer (independent reader) and reader: exact round trip, labels, no distances, rounded, whitespace, "
-        "no semicolon; copy(); as_binary(): binary, leaf distances, clades kept",
+        "no semicolon; copy(); as_binary(): binary, leaf distances, clades kept; TreeNode.to_newick / from_newick / copy of one "
+        "inner node; beyond the statement: == / hash after round trip and copy, != for exchanged leaves",
     ),
     Sub(
         "tree_queries",
@@ -1410,10 +1640,20 @@ ENUMS = [
         "invalid_matrix",
         invalid_cases,
         run_invalid,
-        rule="every listed matrix is invalid by the docstring (not symmetric / entry below 0 / NaN / inf / not square / n < 4 for NJ)",
-        clauses="documented ValueError of upgma and neighbor_joining",
+        rule="matrices that are not symmetric or have an entry below 0 (invalid by the docstring); NaN / inf / not square / "
+        "n < 4 for NJ (outside the quantifier, no docstring)",
+        clauses="documented ValueError of upgma and neighbor_joining for asymmetric / negative matrices; for the others any "
+        "exception or a Tree over exactly the given taxa",
         exhaustive=False,
-    )
+    ),
+    Enum(
+        "construction_refusals",
+        construction_cases,
+        run_construction,
+        rule="every listed TreeNode construction contradicts the class docstring",
+        clauses="TreeError for a root used as child (documented in as_root); an exception of any type for the others",
+        exhaustive=False,
+    ),
 ]
 
 
